@@ -115,12 +115,22 @@ def rule_bc(ck, R):
         serial = has(('cmp', '==', ('f', ('&', ('f', P, 'ep')), 'type'), C(SERIAL)))
         mem16 = has(('cmp', '==', ('f', ('&', ('f', P, 'memory')), 'type'), C(M16)))
         npos = has(('cmp', '<', C(0), ('v', 'n')))
-        notread = has(('cmp', '!=', ('v', 'type'), C(READREQ)))
+        # the frame types this path is taken for: every enumerator of RPFrameType its conditions on `type` admit
+        def admits(tv):
+            for c in conds:
+                if c[0] == 'cmp' and c[2] == ('v', 'type') and sym.is_c(c[3]):
+                    k = c[3][1]
+                    if not {'==': tv == k, '!=': tv != k, '<': tv < k, '<=': tv <= k}.get(c[1], True):
+                        return False
+            return True
+        ftypes = [(nm, v) for nm, v in R.u.enum_decls.get('RPFrameType', []) if admits(v)] or [('?', None)]
         want16 = (msem == MSEM_16BIT) or (msem == MSEM_AUTO and mem16)
-        want = (W16 if want16 else 0) | (HD if serial else 0) | (PL if (serial and npos and notread) else 0)
-        if opts != want:
-            badopt = 'under {%s} the option bits are %#x, the document prescribes %#x (WORD-SIZE-16 per semantic, WITH-HEADER-CRC iff serial, WITH-PAYLOAD-CRC iff serial and payload and not a read request)' % (
-                '; '.join(fmt(c) for c in conds), opts, want)
+        for tn, tv in ftypes:
+            notread = tv is None and has(('cmp', '!=', ('v', 'type'), C(READREQ))) or (tv is not None and tv != READREQ)
+            want = (W16 if want16 else 0) | (HD if serial else 0) | (PL if (serial and npos and notread) else 0)
+            if opts != want:
+                badopt = badopt or ('under {%s}, for frame type %s, the option bits are %#x, the document prescribes %#x (WORD-SIZE-16 per semantic, WITH-HEADER-CRC iff serial, '
+                                    'WITH-PAYLOAD-CRC iff serial and payload and not a read request)' % ('; '.join(fmt(c) for c in conds), tn, opts, want))
     ck.verdict(badlay is None, 'C08.b', 'make_motv:layout', where, 'version[3:0] type[7:4] options[11:8] meta[15:12] for all type/meta values' if badlay is None else badlay)
     ck.verdict(badopt is None, 'C08.c', 'make_motv:options', where, 'option bits follow transport, payload presence, frame type and word semantic on all %d paths' % len(ps) if badopt is None else badopt)
     # populate_header / parse_header positions
